@@ -59,6 +59,8 @@ def _path_summary(o, state_suffix='.state'):
             place = str(e[1])
             if place.endswith(state_suffix) and isinstance(strip(e[2]), A):
                 succ.append(strip(e[2]).name)
+            elif place.endswith(state_suffix):
+                succ.append('?')        # a successor computed elsewhere (self.state = self.next_state(..)): the state is not terminal
             elif place.startswith('self.') and '(' not in place and isinstance(strip(e[2]), I) and strip(e[2]).n in (0, 1):
                 lits[place] = strip(e[2]).n       # a flag set on the path holds afterwards
     return succ, (lits if ok else None)
@@ -110,6 +112,8 @@ def analyse(facts, stream_adt, state_field='state', time_budget=4, budget=400000
             paths.append((succ, lits, calls_))
         summ[d] = paths
     assigners = set(d for d, ps in summ.items() if any(p[0] for p in ps))
+    # handlers take `&mut self` (or Pin<&mut Self>); `&self` methods the dispatcher consults are getters, not handlers
+    mutators = set(d for d in summ if facts.fn(d)['argc'] >= 1 and '&mut ' in facts.fn(d)['locals'][1][0])
     # dispatcher: the method that calls the largest number of state-assigning methods (at least 3)
     disp = sorted(summ, key=lambda d: -len(set(c for p in summ[d] for c in p[2] if c in assigners)))
     if not disp or len(set(c for p in summ[disp[0]] for c in p[2] if c in assigners)) < 3:
@@ -127,7 +131,10 @@ def analyse(facts, stream_adt, state_field='state', time_budget=4, budget=400000
             succ, lits = _path_summary(o, '.' + state_field)
             if lits is None:
                 continue
-            first = next((e[1] for e in o.events if e[0] == 'callargs' and e[1] in summ and e[1] != disp), None)
+            sib = [e[1] for e in o.events if e[0] == 'callargs' and e[1] in summ and e[1] != disp and e[1] in mutators]
+            # the handler of the state is the first sibling that assigns a state; `&self` getters the dispatcher consults first
+            # (`if self.buffer_finished() { return }`) are not handlers.  A state none of whose siblings assigns anything keeps the last one.
+            first = next((c for c in sib if c in assigners), sib[-1] if sib else None)
             if first:
                 handler_of.setdefault(v, {}).setdefault(first, []).append(lits)
             per_state.setdefault(v, []).append((bool(first), bool(succ)))
@@ -148,6 +155,14 @@ def analyse(facts, stream_adt, state_field='state', time_budget=4, budget=400000
 
     inline_terminal = set(v for v, ps in per_state.items() if ps and not any(h or sc for h, sc in ps))
     trans = {}      # state -> list of (succ list, lits incl. dispatch, handler)
+    # literals the dispatcher establishes before EVERY handler call (e.g. "the output buffer is not finished"): they say nothing about one
+    # state in particular, so they cannot be the condition under which a finalisation is owed
+    dispatch_wide = None
+    for v, hs in handler_of.items():
+        for h, dl in hs.items():
+            for l in dl:
+                dispatch_wide = dict(l) if dispatch_wide is None else {k: x for k, x in dispatch_wide.items() if l.get(k) == x}
+    dispatch_wide = dispatch_wide or {}
     for v, hs in handler_of.items():
         for h, dl in hs.items():
             # dispatch literals common to every way of reaching h from v
@@ -180,7 +195,7 @@ def analyse(facts, stream_adt, state_field='state', time_budget=4, budget=400000
         g = dict(lits_list[0])
         for l in lits_list[1:]:
             g = {k: x for k, x in g.items() if l.get(k) == x}
-        G[fstate] = g
+        G[fstate] = {k: x for k, x in g.items() if dispatch_wide.get(k) != x}
     return {'states': states, 'dispatcher': disp, 'handler_of': {v: sorted(hs) for v, hs in handler_of.items()}, 'trans': trans, 'T': T, 'F': F, 'G': G, 'enum': senum}
 
 
